@@ -20,7 +20,7 @@ PROP = "C07"
 
 
 def surface_cases(rep: Report, t: str, label="Surface"):
-    kinds = '{"func", "async", "class", "var", "annvar", "augvar", "tuple", "method", "selfless", "static", "classmeth", "classattr"}'
+    kinds = '{"func", "async", "class", "var", "annvar", "augvar", "tuple", "chain", "starred", "listtarget", "underscore", "method", "selfless", "static", "classmeth", "classattr"}'
     if t == "quick":
         styles, maxdefs, flags = '{"snake", "camel", "upper", "private"}', 2, "{<<FALSE, FALSE>>, <<TRUE, TRUE>>}"
         kinds_mc = kinds
@@ -44,8 +44,8 @@ def main(argv=None) -> int:
     t = tier()
     rng = random.Random(seed())
     cases = surface_cases(rep, t)
-    if t == "quick" and len(cases) > 3000:
-        cases = rng.sample(cases, 3000)
+    if t == "quick" and len(cases) > 3500:
+        cases = rng.sample(cases, 3500)
     items = []
     for i, c in enumerate(cases):
         text, names, _ = render_surface.render(c)
@@ -77,6 +77,11 @@ def main(argv=None) -> int:
                 stage, s_in, s_out = ev["stage"], ev["before"], ev["after"]
                 break
         kf, sh = pipecheck.known_by_signature(rep, stage, s_in, s_out, r.source)
+        if not kf:
+            for e in rep.known_entries():
+                cls = e.get("class", {})
+                if isinstance(cls, dict) and cls.get("kind") == "lost-names" and set(lost) <= set(cls.get("names", [])):
+                    kf = e["id"]
         case = {"input_id": r.key, "source": r.source, "result": r.result, "lost_names": lost, "stage": stage,
                 "stage_input": s_in, "stage_output": s_out, "shape": sh}
         if kf:
